@@ -7,7 +7,7 @@ use crate::spaces::*;
 use serde_json::{json, Value};
 use sourcemap::{decode_data_url, is_sourcemap, is_sourcemap_slice, locate_sourcemap_reference, locate_sourcemap_reference_slice, DecodedMap, SourceMapRef};
 
-const LINE_MENU: [&str; 11] = [
+const LINE_MENU: [&str; 13] = [
     "var a=1;",
     "//# sourceMappingURL=u1.map",
     "//@ sourceMappingURL=u2.map",
@@ -19,6 +19,9 @@ const LINE_MENU: [&str; 11] = [
     "",
     "//# sourcemappingurl=lower.map",
     "//#  sourceMappingURL=twospaces.map",
+    // other directives that open like the two comment forms
+    "//@ sourceURL=app.min.js",
+    "//# sourceURL=app.min.js",
 ];
 
 /// RDetect.locate: first line that *begins* with either prefix; URL trimmed; '@' = legacy.
@@ -129,8 +132,8 @@ fn check_map(m: &RMap, how: usize) -> (Vec<Viol>, bool) {
         if !is_sourcemap_slice(&bytes) {
             return Err(("detect/regular-not-recognised".into(), format!("is_sourcemap_slice = false on {}", String::from_utf8_lossy(&bytes))));
         }
-        if !is_sourcemap(&bytes[..]) {
-            return Err(("detect/regular-not-recognised-reader".into(), format!("is_sourcemap = false on {}", String::from_utf8_lossy(&bytes))));
+        if !is_sourcemap(&bytes[..]) || !is_sourcemap(OneByte(&bytes)) {
+            return Err(("detect/regular-not-recognised-reader".into(), format!("is_sourcemap (reader, whole or one byte per read) = false on {}", String::from_utf8_lossy(&bytes))));
         }
         Ok(())
     });
@@ -155,7 +158,7 @@ fn check_doc(d: &RDoc, how: usize) -> (Vec<Viol>, bool) {
     };
     let r = guarded(|| -> Result<(), (String, String)> {
         let bytes = ser(&dm).map_err(|e| ("serialise-error".to_string(), e))?;
-        if !is_sourcemap_slice(&bytes) || !is_sourcemap(&bytes[..]) {
+        if !is_sourcemap_slice(&bytes) || !is_sourcemap(&bytes[..]) || !is_sourcemap(OneByte(&bytes)) {
             return Err((format!("detect/{kind}-not-recognised"), format!("is_sourcemap(_slice) = false on {}", String::from_utf8_lossy(&bytes))));
         }
         Ok(())
@@ -174,7 +177,7 @@ pub fn run(run: &mut Run) -> Finish {
     let nmenu = LINE_MENU.len() as u64;
     let nseq = n_seq_upto(nmenu, max_lines);
     // x line ending {\n, \r\n} x final newline {no, yes}
-    run.par_slice("texts: every sequence of <= 5/6 lines over an 11-line menu x {\\n, \\r\\n} x final newline {no, yes}", 1, nseq * 4, |idx, l| {
+    run.par_slice("texts: every sequence of <= 5/6 lines over a 13-line menu x {\\n, \\r\\n} x final newline {no, yes}", 1, nseq * 4, |idx, l| {
         let k = idx & ((1 << 40) - 1);
         let lines = seq_upto_unrank(nmenu, max_lines, k / 4);
         let nl = if k % 2 == 0 { "\n" } else { "\r\n" };
